@@ -249,7 +249,7 @@ FORMULAS = {
     "C09": ["C09_Keep", "C09_NotLost", "C09_NoForeignAdopt", "C09_AdmOnlyForeign", "C09_Listed", "C09_ForeignEnds"],
     "C10": ["C10_SuccOnly", "C10_FailOnly", "C10_RefMatchesTask", "C10_NoLiveAtFinish", "C10_Reaches", "C10_Progress"],
     "C11": ["C11_Coherent", "C11_Monotone"],
-    "C12": ["C12_DeleteJustified", "C12_ForceGate", "C12_KillCompletes", "C12_PendingCompletes"],
+    "C12": ["C12_DeleteJustified", "C12_ForceGate", "C12_KillSticky", "C12_KillCompletes", "C12_PendingCompletes"],
     "C13": ["C13_Order", "C13_OrderAll", "C13_TTLNotEarly", "C13_DeletionCompletes", "C13_TTLEventually"],
 }
 
